@@ -2516,7 +2516,7 @@ func genGlobalVarDecl(nodes []*node, sc *scope) (*node, error) {
 	inited := map[*node]bool{}
 	revisit := []*node{}
 	for {
-		for _, n := range nodes {
+		for i, n := range nodes {
 			canInit := true
 			for _, d := range deps[n] {
 				if !inited[d] {
@@ -2530,6 +2530,11 @@ func genGlobalVarDecl(nodes []*node, sc *scope) (*node, error) {
 
 			varNode.child = append(varNode.child, n)
 			inited[n] = true
+
+			// The Go spec initializes repeatedly the earliest variable in declaration
+			// order that is ready: rescan the remaining variables from the start.
+			revisit = append(revisit, nodes[i+1:]...)
+			break
 		}
 
 		if len(revisit) == 0 || equalNodes(nodes, revisit) {
